@@ -117,7 +117,24 @@ fn scenario(sc: &Value) -> Value {
     verif::set_actor(0);
     verif::emit("f.scenario", &[("id", id), ("n", n as i64)]);
     let (tx, rx) = ipc::channel::<Vec<u8>>().unwrap();
-    let nthreads = senders.iter().filter(|s| gets(s, "kind") != "proc").count();
+    let nthreads = senders.iter().filter(|s| !matches!(gets(s, "kind"), "proc" | "fork")).count();
+    let mut forked: Vec<libc::pid_t> = Vec::new();
+    let mut go_pipe = [0 as libc::c_int; 2];
+    if senders.iter().any(|s| gets(s, "kind") == "fork") {
+        // the forking thread has already sent a large message somewhere else: whatever per-thread or per-process
+        // state the transport keeps for fragmented sends exists before the fork and is inherited by the children
+        let (wtx, wrx) = ipc::channel::<Vec<u8>>().unwrap();
+        #[cfg(not(feature = "inprocess"))]
+        let big = 3 * ipc_channel::platform::verif_constants(4096)[1];
+        #[cfg(feature = "inprocess")]
+        let big = 1 << 20;
+        let h = std::thread::spawn(move || wrx.recv().map(|d| d.len()));
+        wtx.send(payload(9, big)).unwrap();
+        let _ = h.join();
+        unsafe {
+            libc::pipe(go_pipe.as_mut_ptr());
+        }
+    }
     let start = Arc::new(Barrier::new(nthreads + 1));
     let mut threads = Vec::new();
     let mut children = Vec::new();
@@ -125,6 +142,23 @@ fn scenario(sc: &Value) -> Value {
         let s = i as i64 + 1;
         let lens: Vec<i64> = sd["lens"].as_array().map(|a| a.iter().filter_map(|x| x.as_i64()).collect()).unwrap_or_default();
         match gets(sd, "kind") {
+            "fork" => {
+                // fork(2), no exec: the child continues with a copy of this thread and of every descriptor
+                let mine = tx.clone();
+                let pid = unsafe { libc::fork() };
+                if pid == 0 {
+                    die_with_parent();
+                    unsafe {
+                        libc::close(go_pipe[1]);
+                        let mut b = [0u8; 1];
+                        libc::read(go_pipe[0], b.as_mut_ptr() as *mut libc::c_void, 1);
+                    }
+                    send_all(s, seed, &lens, mine);
+                    unsafe { libc::_exit(0) };
+                }
+                drop(mine);
+                forked.push(pid);
+            },
             "proc" => {
                 let (server, name) = IpcOneShotServer::<IpcSender<IpcSender<Vec<u8>>>>::new().unwrap();
                 let exe = std::env::current_exe().unwrap();
@@ -166,6 +200,12 @@ fn scenario(sc: &Value) -> Value {
     }
     drop(tx);
     // go
+    if !forked.is_empty() {
+        unsafe {
+            libc::close(go_pipe[0]);
+            libc::close(go_pipe[1]);
+        }
+    }
     for (child, _) in children.iter_mut() {
         let _ = child.stdin.as_mut().unwrap().write_all(b"GO\n");
         let _ = child.stdin.as_mut().unwrap().flush();
@@ -263,6 +303,12 @@ fn scenario(sc: &Value) -> Value {
     }
     for h in threads {
         let _ = h.join();
+    }
+    for pid in forked {
+        let mut st = 0;
+        unsafe {
+            libc::waitpid(pid, &mut st, 0);
+        }
     }
     for (mut child, mut out) in children {
         let mut line = String::new();
